@@ -9,6 +9,8 @@ total).
 """
 from __future__ import annotations
 
+import datetime
+
 import numpy as np
 import pandas as pd
 from hypothesis import strategies as st
@@ -21,7 +23,7 @@ from .c01 import _Case
 PROP = "C19"
 LEVEL = "exploration"
 RULE = (
-    "case = (change-date stratum >= 2015, east/west, has children, age, grid step) -> a sweep of gross "
+    "case = (change-date stratum >= 2003-04-01 (introduction of the transition zone), east/west, has children, age, grid step) -> a sweep of gross "
     "wages from 0 to 1.2 x the highest assessment ceiling plus every statutory boundary (minijob limit, "
     "upper transition-zone bound, both ceilings) -0.01/0/+0.01.  Non-trivial = the sweep contains "
     "marginal, transition-zone and regular employment and both sides of both ceilings; distinct = "
@@ -31,7 +33,10 @@ ASSUMPTIONS = [
     "boundaries are read from the same run (minijob_grenze, ceilings) and from params (upper transition-zone bound)",
     "employee: not self-employed, not retired, publicly insured; tolerance 1e-9 on monotonicity / equality",
 ]
-BUDGET = {"quick": (32, 6), "thorough": (None, 24)}
+BUDGET = {"quick": (96, 3), "thorough": (None, 24)}
+# the transition zone ("Midijob") exists since 2003-04-01; the four contributions are computable from
+# then on, so the shape conditions are explored from that date, not only from 2015
+DATE_LO = datetime.date(2003, 4, 1)
 CONTRIB = {
     "ges_rentenv": "ges_rentenv_beitr_arbeitnehmer_m",
     "ges_krankenv": "ges_krankenv_beitr_arbeitnehmer_m",
